@@ -768,6 +768,7 @@ func (f *fileDecorator) decorateNode(parent ast.Node, parentName, parentField, p
 		out := &dst.File{}
 		f.Dst.Nodes[n] = out
 		f.Ast.Nodes[out] = n
+		f.file = n
 
 		out.Decs.Before = f.before[n]
 		out.Decs.After = f.after[n]
